@@ -15,3 +15,118 @@ Proof.
     + unfold flat_msgs in *; simpl. rewrite IH. simpl. rewrite <- app_assoc. reflexivity.
     + rewrite IH. rewrite <- app_assoc. reflexivity.
 Qed.
+
+(* ------------------------------------------------------------------------------------------------------ *)
+(* views *)
+Definition veq (a b : vmap) : Prop := forall k, a k = b k.
+Lemma veq_refl a : veq a a. Proof. intro; reflexivity. Qed.
+Lemma veq_sym a b : veq a b -> veq b a. Proof. intros H k; symmetry; apply H. Qed.
+Lemma veq_trans a b c : veq a b -> veq b c -> veq a c. Proof. intros H1 H2 k; rewrite H1; apply H2. Qed.
+
+Lemma vapply_veq a b u : veq a b -> veq (vapply a u) (vapply b u).
+Proof. intros H k; unfold vapply; destruct (N.eqb k (u_key u)); auto. Qed.
+Lemma fold_vapply_veq us : forall a b, veq a b -> veq (fold_left vapply us a) (fold_left vapply us b).
+Proof. induction us; simpl; intros; auto using vapply_veq. Qed.
+Lemma view_of_app us vs : view_of (us ++ vs) = fold_left vapply vs (view_of us).
+Proof. unfold view_of; apply fold_left_app. Qed.
+
+(* value view of a tree *)
+Definition vview (m : list upd) : vmap :=
+  fun k => match kv_get k m with Some e => u_val e | None => None end.
+
+(* what a follower does with one delta *)
+Definition cl_apply (m : list upd) (u : upd) : list upd :=
+  match u_val u with None => kv_del (u_key u) m | Some _ => kv_put (stored u) m end.
+
+Lemma kv_get_key k m e : kv_get k m = Some e -> u_key e = k.
+Proof.
+  induction m as [|x m IH]; simpl; [discriminate|].
+  destruct (N.eqb (u_key x) k) eqn:E; [|exact IH].
+  intro H; inversion H; subst. apply N.eqb_eq; exact E.
+Qed.
+
+Lemma kv_get_put k u m :
+  kv_get k (kv_put u m) = if N.eqb (u_key u) k then Some u else kv_get k m.
+Proof.
+  induction m as [|x m IH]; simpl.
+  - reflexivity.
+  - destruct (N.compare (u_key u) (u_key x)) eqn:C; simpl.
+    + apply N.compare_eq in C. destruct (N.eqb (u_key u) k) eqn:E; [reflexivity|].
+      rewrite <- C, E. reflexivity.
+    + reflexivity.
+    + rewrite IH. destruct (N.eqb (u_key u) k) eqn:E; [|reflexivity].
+      destruct (N.eqb (u_key x) k) eqn:E2; [|reflexivity].
+      apply N.eqb_eq in E, E2. rewrite E, E2 in C. rewrite N.compare_refl in C. discriminate.
+Qed.
+
+Lemma kv_get_del k k' m :
+  kv_get k (kv_del k' m) = if N.eqb k' k then None else kv_get k m.
+Proof.
+  unfold kv_del. induction m as [|x m IH]; simpl.
+  - destruct (N.eqb k' k); reflexivity.
+  - destruct (N.eqb (u_key x) k') eqn:E; simpl.
+    + rewrite IH. destruct (N.eqb k' k) eqn:E2; [reflexivity|].
+      apply N.eqb_eq in E. rewrite E, E2. reflexivity.
+    + rewrite IH. destruct (N.eqb (u_key x) k) eqn:E3; [|reflexivity].
+      destruct (N.eqb k' k) eqn:E2; [|reflexivity].
+      apply N.eqb_eq in E3, E2. subst. rewrite N.eqb_refl in E. discriminate.
+Qed.
+
+Lemma vview_cl_apply m u : veq (vview (cl_apply m u)) (vapply (vview m) u).
+Proof.
+  intro k. unfold vview, cl_apply, vapply.
+  destruct (u_val u) eqn:V.
+  - rewrite kv_get_put. simpl. rewrite (N.eqb_sym k). destruct (N.eqb (u_key u) k); simpl; auto.
+  - rewrite kv_get_del. rewrite (N.eqb_sym k). destruct (N.eqb (u_key u) k); auto.
+Qed.
+
+Lemma vview_fold_cl_apply ds : forall m, veq (vview (fold_left cl_apply ds m)) (fold_left vapply ds (vview m)).
+Proof.
+  induction ds as [|d ds IH]; simpl; intro m; [apply veq_refl|].
+  eapply veq_trans; [apply IH|]. apply fold_vapply_veq, vview_cl_apply.
+Qed.
+
+Lemma optN_eqb_eq a b : optN_eqb a b = true -> a = b.
+Proof. destruct a, b; simpl; try discriminate; auto. intro H; apply N.eqb_eq in H; subst; auto. Qed.
+
+(* a skipped update would not have changed the value view *)
+Lemma noop_vapply m u old :
+  kv_get (u_key u) m = Some old -> would_be_noop u old = true -> veq (vapply (vview m) u) (vview m).
+Proof.
+  intros G W k. unfold vapply. destruct (N.eqb k (u_key u)) eqn:E; [|reflexivity].
+  apply N.eqb_eq in E; subst k. unfold vview. rewrite G.
+  unfold would_be_noop in W. repeat (apply andb_prop in W; destruct W as [W ?]).
+  apply optN_eqb_eq; assumption.
+Qed.
+
+Lemma apply_updates_spec us : forall m m' ds,
+  apply_updates m us = (m', ds) ->
+  m' = fold_left cl_apply ds m /\ subseq ds us /\ veq (vview m') (fold_left vapply us (vview m)).
+Proof.
+  induction us as [|u us IH]; simpl; intros m m' ds H.
+  - inversion H; subst. split; [reflexivity|split; [constructor|apply veq_refl]].
+  - destruct (u_val u) eqn:V.
+    + destruct (kv_get (u_key u) m) as [old|] eqn:G.
+      * destruct (would_be_noop u old) eqn:W.
+        -- destruct (IH _ _ _ H) as (A & B & C). split; [exact A|split].
+           ++ constructor; exact B.
+           ++ eapply veq_trans; [exact C|]. apply fold_vapply_veq, veq_sym. eapply noop_vapply; eauto.
+        -- destruct (apply_updates (kv_put (stored u) m) us) as [m1 ds1] eqn:R. inversion H; subst.
+           destruct (IH _ _ _ R) as (A & B & C). split; [|split].
+           ++ simpl. unfold cl_apply at 2. rewrite V. exact A.
+           ++ constructor; exact B.
+           ++ eapply veq_trans; [exact C|]. apply fold_vapply_veq.
+              pose proof (vview_cl_apply m u) as P. unfold cl_apply in P. rewrite V in P. exact P.
+      * destruct (apply_updates (kv_put (stored u) m) us) as [m1 ds1] eqn:R. inversion H; subst.
+        destruct (IH _ _ _ R) as (A & B & C). split; [|split].
+        -- simpl. unfold cl_apply at 2. rewrite V. exact A.
+        -- constructor; exact B.
+        -- eapply veq_trans; [exact C|]. apply fold_vapply_veq.
+           pose proof (vview_cl_apply m u) as P. unfold cl_apply in P. rewrite V in P. exact P.
+    + destruct (apply_updates (kv_del (u_key u) m) us) as [m1 ds1] eqn:R. inversion H; subst.
+      destruct (IH _ _ _ R) as (A & B & C). split; [|split].
+      * simpl. unfold cl_apply at 2. rewrite V. exact A.
+      * constructor; exact B.
+      * eapply veq_trans; [exact C|]. apply fold_vapply_veq.
+        pose proof (vview_cl_apply m u) as P. unfold cl_apply in P. rewrite V in P. exact P.
+Qed.
